@@ -80,6 +80,10 @@ pub enum Step {
     Reopen(u8),
     /// n cheap autocommit reads: consumes n transaction ids (id-dependent bookkeeping: bitmaps, wrap-arounds)
     Burn(u16),
+    /// A read-only bystander transaction outside the sessions the interpreter models: 0 begin, 1 begin and read a
+    /// table once, 2 commit, 3 roll back, 4 drop. It never reads again after its begin, so nothing others do can
+    /// depend on it - and nothing it does (it does nothing) may change what others see.
+    Bystander(u8),
 }
 
 impl AStmt {
@@ -131,6 +135,7 @@ pub struct GenOpts {
     pub composite_keys: bool,
     pub alter: bool,
     pub alter_col: bool,
+    pub bystander: bool,
     pub w_select: u32,
     pub w_begin: u32,
     pub max_rows_per_insert: usize,
@@ -162,6 +167,7 @@ impl Default for GenOpts {
             composite_keys: false,
             alter: false,
             alter_col: false,
+            bystander: true,
             w_select: 4,
             w_begin: 3,
             max_rows_per_insert: 3,
@@ -289,6 +295,9 @@ pub fn gen_history(o: &GenOpts) -> BoxedStrategy<Vec<Step>> {
     }
     if o.reopen {
         v.push((1, (0u8..6).prop_map(Step::Reopen).boxed()));
+    }
+    if o.bystander {
+        v.push((2, (0u8..5).prop_map(Step::Bystander).boxed()));
     }
     let step = proptest::strategy::Union::new_weighted(v);
     let prefix = (gen_create(&o2), prop::collection::vec(prop::collection::vec(gen_aval(false), 5), 1..4)).prop_map(|(c, rows)| vec![Step::Auto(c), Step::Auto(AStmt::Insert { t: 0, rows, partial: false })]);
@@ -793,6 +802,8 @@ pub struct Interp {
     pub allow_flush_with_open_writer: bool,
     /// transaction ids consumed by Burn steps
     pub burned: u32,
+    /// the bystander transaction (engine session 250) is open
+    pub bystander_open: bool,
     /// sessions in which a statement failed after writing rows: not asserted any more, rolled back at their end
     pub doomed: BTreeSet<u8>,
 }
@@ -838,6 +849,7 @@ impl Interp {
             vacuum_aborts_sessions: false,
             allow_flush_with_open_writer: false,
             burned: 0,
+            bystander_open: false,
             doomed: BTreeSet::new(),
         })
     }
@@ -1158,9 +1170,15 @@ impl Interp {
                 _ => {}
             }
         }
+        if self.bystander_open && matches!(st, Step::Vacuum | Step::Reopen(_)) {
+            // VACUUM aborts open transactions by contract, a close ends them: end the bystander first
+            self.db.drop_session(250);
+            self.bystander_open = false;
+            self.trace(format!("[{i}] bystander: drop session"));
+        }
         self.last_step_kind = match st {
             Step::Rollback(_) | Step::DropSession(_) => "noncommit_end",
-            Step::Flush | Step::Vacuum | Step::Reopen(_) | Step::Burn(_) => "admin",
+            Step::Flush | Step::Vacuum | Step::Reopen(_) | Step::Burn(_) | Step::Bystander(_) => "admin",
             _ => "commit_path",
         };
         match st {
@@ -1677,6 +1695,58 @@ impl Interp {
                 match self.db.flush() {
                     Ok(()) => None,
                     Err(e) => Some(self.fail("flush_failed", e.text())),
+                }
+            }
+            Step::Bystander(k) => {
+                const B: u8 = 250;
+                match (k % 5, self.bystander_open) {
+                    (0 | 1, false) => {
+                        if !self.db.usable() || self.db.begin(B).is_err() {
+                            return None;
+                        }
+                        self.bystander_open = true;
+                        self.tags.insert("txn.bystander".into());
+                        self.trace(format!("[{i}] bystander: BEGIN"));
+                        // (it reads only while no modelled transaction is open: reads beside open writers are C04's)
+                        if k % 5 == 1 && self.txns.is_empty() {
+                            let first = self.model.committed.tables.iter().next().map(|(n, tb)| (n.clone(), tb.rows.values().cloned().collect::<Vec<_>>()));
+                            if let Some((name, rows)) = first {
+                                let sql = format!("SELECT * FROM {name}");
+                                self.trace(format!("[{i}] bystander: {sql}"));
+                                let want = MOut::Rows(rows);
+                                let eng = self.db.sexec(B, &sql);
+                                if self.check_outputs {
+                                    if let Some(f) = self.compare_out(&sql, &eng, &want, true) {
+                                        return Some(f);
+                                    }
+                                }
+                            }
+                        }
+                        None
+                    }
+                    (2..=4, true) => {
+                        self.bystander_open = false;
+                        self.trace(format!("[{i}] bystander: {}", ["", "", "COMMIT", "ROLLBACK", "drop session"][(*k % 5) as usize]));
+                        self.tags.insert(format!("txn.bystander_{}", ["", "", "commit", "rollback", "drop"][(*k % 5) as usize]));
+                        let r = match k % 5 {
+                            2 => self.db.commit(B),
+                            3 => self.db.rollback(B),
+                            _ => {
+                                self.db.drop_session(B);
+                                Ok(())
+                            }
+                        };
+                        match r {
+                            Ok(()) => {}
+                            Err(dbx::Err::Panic(p)) => return Some(self.fail("panic", format!("bystander end: {p}"))),
+                            Err(e) => return Some(self.fail("spurious_error", format!("step {i}: a read-only transaction could not end: {}", e.text()))),
+                        }
+                        if self.check_state_every_step && self.txns.is_empty() {
+                            return self.full_check(&format!("after the bystander ended at step {i}"));
+                        }
+                        None
+                    }
+                    _ => None,
                 }
             }
             Step::Burn(n) => {
